@@ -52,7 +52,11 @@ def agree_pow(exp, obs, cid):
     # ... or the huge power is an intermediate value: a power of a power, or an exponent that is itself a product,
     # shift or power (with the operand values 2, 3, 5, 7, 11 ... every other `**` stays far below 2^53 and is exact)
     chained = cid.count("**") >= 2 or _re_mod.search(r"\*\* \([^()]*(?:\*|<<)", cid) is not None
-    return big or chained
+    # ... or the exponent is negative (`b ** ~c`, `b ** -c`): V8's reciprocal power is 1 ulp off the correctly rounded value
+    # (3 ** -6: V8 0x3f567980e0bf08c8, exact rational 1/729 rounds to ...c7, which is what the engine gives), and a later `%`
+    # amplifies that last place arbitrarily
+    negexp = _re_mod.search(r"\*\* \(?[~-]", cid) is not None
+    return big or chained or negexp
 
 PROP = "C13"
 LEVEL = "exploration"
